@@ -257,7 +257,9 @@ Section Exact.
 
   (* E1: both halves of a split of an exact chunk are exact *)
   Lemma asplit_exact c t0 early c1 c2 :
-    exactc c -> asplit c t0 early = Ok (c1, c2) -> exactc c1 /\ exactc c2 /\ cend (abase c1) = cstart (abase c2).
+    exactc c -> asplit c t0 early = Ok (c1, c2) ->
+    exactc c1 /\ exactc c2 /\ cend (abase c1) = cstart (abase c2) /\
+    cstart (abase c1) = cstart (abase c) /\ cend (abase c2) = cend (abase c).
   Proof.
     intros Hc H. pose proof Hc as (Hr & Hab & Hlo & Hhi & Hs & Hsup).
     unfold asplit in H. rewrite (promised_exact c Hc) in H. cbn [res_bind] in H.
@@ -322,5 +324,153 @@ Section Exact.
     unfold sort_spans in Hsup. cbn [fold_left ins_span overlapb] in Hsup. inversion Hsup as [Hsp]. clear Hsup.
     unfold exactc. rewrite Hb. cbn [crun cstart cend]. rewrite Hr1.
     repeat split; auto; lia.
+  Qed.
+
+  Ltac rsplit := repeat match goal with |- _ /\ _ => split end.
+
+  (* consecutive chunks touch *)
+  Fixpoint chain_from (e : Z) (cs : list achunk) : Prop :=
+    match cs with
+    | [] => True
+    | c :: r => cstart (abase c) = e /\ chain_from (cend (abase c)) r
+    end.
+  Fixpoint end_of (e : Z) (cs : list achunk) : Z :=
+    match cs with [] => e | c :: r => end_of (cend (abase c)) r end.
+
+  Lemma chain_from_app e l1 l2 :
+    chain_from e (l1 ++ l2) <-> chain_from e l1 /\ chain_from (end_of e l1) l2.
+  Proof.
+    revert e; induction l1 as [|c l1 IH]; intros e; cbn [app chain_from end_of]; [tauto|].
+    rewrite IH. tauto.
+  Qed.
+  Lemma end_of_app e l1 l2 : end_of e (l1 ++ l2) = end_of (end_of e l1) l2.
+  Proof. revert e; induction l1 as [|c l1 IH]; intros e; cbn [app end_of]; auto. Qed.
+
+  (* E3: the superrun Rechunker (concatenate the cache, split off chunks) keeps every chunk exact *)
+  Lemma asplit_off_exact idxs : forall c out c',
+    exactc c -> asplit_off c idxs = Ok (out, c') ->
+    Forall exactc out /\ exactc c' /\ chain_from (cstart (abase c)) (out ++ [c']) /\
+    cend (abase c') = cend (abase c).
+  Proof.
+    induction idxs as [|i rest IH]; intros c out c' Hc H; cbn [asplit_off] in H.
+    - inversion H; subst. cbn. rsplit; auto.
+    - destruct (nth_error _ _); [|discriminate]. bind_inv H. destruct x as [c1 c2]. bind_inv H.
+      destruct x as [out' c'']. inversion H; subst.
+      apply (asplit_exact c _ _ c1 c2 Hc) in Hx as (H1 & H2 & Hadj & Hst & Hen).
+      destruct (IH _ _ _ H2 Hx0) as (Ho & Hc' & Hch & He).
+      rsplit; auto; [|congruence].
+      cbn [app chain_from]. split; [exact Hst|]. rewrite Hadj. exact Hch.
+  Qed.
+
+  Definition cache_ok (cache : option achunk) (e : Z) : Prop :=
+    match cache with None => True | Some c0 => exactc c0 /\ cend (abase c0) = e end.
+  Definition cache_start (cache : option achunk) (e : Z) : Z :=
+    match cache with None => e | Some c0 => cstart (abase c0) end.
+
+  Lemma areceive_exact is_sr cache c out cache' :
+    cache_ok cache (cstart (abase c)) -> exactc c ->
+    areceive is_sr cache c = Ok (out, cache') ->
+    exists c', cache' = Some c' /\ Forall exactc out /\ exactc c' /\ cend (abase c') = cend (abase c) /\
+               chain_from (cache_start cache (cstart (abase c))) (out ++ [c']).
+  Proof.
+    intros Hcache Hc H. unfold areceive in H. bind_inv H. bind_inv H. bind_inv H.
+    destruct x1 as [o c']. inversion H; subst. exists c'. split; [reflexivity|].
+    assert (Hx' : exactc x /\ cstart (abase x) = cache_start cache (cstart (abase c)) /\ cend (abase x) = cend (abase c)).
+    { destruct cache as [c0|]; cbn [cache_ok cache_start] in *.
+      - destruct Hcache as [H0 He]. apply (aconcatenate_exact c0 c is_sr x H0 Hc He) in Hx. tauto.
+      - inversion Hx; subst. auto. }
+    destruct Hx' as (Hxe & Hxs & Hxen).
+    destruct (asplit_off_exact _ _ _ _ Hxe Hx1) as (Ho & Hc' & Hch & He).
+    rsplit; auto; congruence.
+  Qed.
+
+  Lemma arechunk_exact is_sr cs : forall cache e res,
+    cache_ok cache e -> Forall exactc cs -> chain_from e cs ->
+    arechunk_from is_sr cache cs = Ok res ->
+    Forall exactc res /\ chain_from (cache_start cache e) res /\
+    end_of (cache_start cache e) res = end_of e cs.
+  Proof.
+    induction cs as [|c rest IH]; intros cache e res Hcache Hall Hch H; cbn [arechunk_from] in H.
+    - inversion H; subst. destruct cache as [c0|]; cbn in *; [|auto].
+      destruct Hcache. rsplit; auto.
+    - bind_inv H. destruct x as [out cache']. bind_inv H. inversion H; subst.
+      inversion Hall as [|? ? Hc Hrest]; subst. cbn [chain_from] in Hch. destruct Hch as [Hst Hch].
+      rewrite <- Hst in Hcache.
+      destruct (areceive_exact _ _ _ _ _ Hcache Hc Hx) as (c' & -> & Ho & Hc' & He & Hchain).
+      assert (Hco : cache_ok (Some c') (cend (abase c))) by (cbn; auto).
+      destruct (IH _ _ _ Hco Hrest Hch Hx0) as (Hm & Hchm & Hend).
+      cbn [cache_start] in Hchm, Hend.
+      apply chain_from_app in Hchain as [Hch1 Hch2]. cbn [chain_from] in Hch2. destruct Hch2 as [Hs' _].
+      rewrite Hst in *.
+      rsplit.
+      + apply Forall_app; auto.
+      + apply chain_from_app. split; [exact Hch1|]. rewrite <- Hs'. exact Hchm.
+      + rewrite end_of_app, <- Hs', Hend. cbn [end_of]. reflexivity.
+  Qed.
+
+  (* ---------------------------------------------------------------------------------------------
+     storing and re-reading
+     --------------------------------------------------------------------------------------------- *)
+  Lemma sorted_perm_unique (l1 l2 : annot) :
+    StronglySorted (key_le sstart) l1 -> StronglySorted (fun a b => sstart a < sstart b) l2 ->
+    Permutation l1 l2 -> l1 = l2.
+  Proof.
+    revert l2; induction l1 as [|a l1 IH]; intros l2 H1 H2 HP.
+    - apply Permutation_nil in HP. now subst.
+    - destruct l2 as [|b l2]; [apply Permutation_sym, Permutation_nil in HP; discriminate|].
+      inversion H1 as [|? ? Hs1 Ha]; inversion H2 as [|? ? Hs2 Hb]; subst.
+      assert (a = b).
+      { assert (In a (b :: l2)) as Hia by (eapply Permutation_in; [exact HP|left; auto]).
+        assert (In b (a :: l1)) as Hib by (eapply Permutation_in; [symmetry; exact HP|left; auto]).
+        destruct Hia as [->|Hia]; auto. destruct Hib as [->|Hib]; auto.
+        rewrite Forall_forall in Ha, Hb. specialize (Ha _ Hib). specialize (Hb _ Hia). unfold key_le in Ha. lia. }
+      subst b. f_equal. apply IH; auto. eapply Permutation_cons_inv; exact HP.
+  Qed.
+
+  Lemma wfa_strict l : wfa l -> StronglySorted (fun a b => sstart a < sstart b) l.
+  Proof.
+    induction l as [|h l IH]; intros H; [constructor|].
+    apply wfa_cons_inv in H as (Hh & Hall & Hl). constructor; [auto|].
+    eapply Forall_impl; [|exact Hall]. cbn. intros; lia.
+  Qed.
+
+  Lemma sort_spans_of_perm l l' : wfa l -> Permutation l' l -> sort_spans l' = l.
+  Proof.
+    intros Hwf HP. apply sorted_perm_unique; [rewrite sort_spans_sort_by; apply (sort_by_sorted sstart)|apply wfa_strict, Hwf|].
+    rewrite sort_spans_perm. exact HP.
+  Qed.
+
+  Lemma has_none_key_perm l l' : Permutation l' l -> has_none_key l' = has_none_key l.
+  Proof.
+    intros HP. unfold has_none_key. destruct (existsb _ l) eqn:E.
+    - apply existsb_exists in E as (s & Hin & Hs). apply existsb_exists. exists s. split; auto.
+      eapply Permutation_in; [symmetry; exact HP|exact Hin].
+    - apply not_true_is_false. intros E'. apply existsb_exists in E' as (s & Hin & Hs).
+      assert (existsb (fun s => match srun s with None => true | Some _ => false end) l = true) as Hc.
+      { apply existsb_exists. exists s. split; auto. eapply Permutation_in; [exact HP|exact Hin]. }
+      congruence.
+  Qed.
+
+  (* a stored exact chunk of positive duration comes back unchanged (the json round trip re-orders the
+     dict by run id, the setter re-sorts it by start) *)
+  Lemma load_save_exact c :
+    exactc c -> cstart (abase c) < cend (abase c) ->
+    mk_chunk (cstart (abase c)) (cend (abase c)) (crows (abase c)) (cdtype (abase c)) (ckind (abase c))
+             (crun (abase c)) (ctarget (abase c)) = Ok (abase c) ->
+    load_chunk (save_chunk c) = Ok c.
+  Proof.
+    intros Hc Hlt Hmk. pose proof Hc as (Hr & Hab & Hlo & Hhi & Hs & Hsup).
+    destruct (clip_tight_ends T HwT Htight (cstart (abase c)) (cend (abase c))) as (Hne & _ & _); try lia.
+    unfold load_chunk, save_chunk. cbn [st_base st_sub]. rewrite Hs.
+    destruct (clip (cstart (abase c)) (cend (abase c)) T) as [|x r] eqn:E; [contradiction|].
+    cbn [none_if_empty]. rewrite <- E in *. unfold mk_achunk.
+    assert (Hset : set_subruns true (Some (sort_by key_z (clip (cstart (abase c)) (cend (abase c)) T)))
+                   = Ok (Some (clip (cstart (abase c)) (cend (abase c)) T))).
+    { unfold set_subruns.
+      rewrite (has_none_key_perm _ _ (sort_by_perm key_z _)), has_none_key_clip.
+      rewrite (sort_spans_of_perm (clip (cstart (abase c)) (cend (abase c)) T)); [|apply clip_wfa, HwT|apply sort_by_perm].
+      rewrite overlapb_wfa by (apply clip_wfa, HwT). reflexivity. }
+    rewrite Hset. cbn [res_bind]. rewrite Hmk. cbn [res_bind]. rewrite Hr, set_superrun_none. cbn [res_bind].
+    destruct c as [b sub sup]. cbn in *. subst sub sup. rewrite E. reflexivity.
   Qed.
 End Exact.
